@@ -395,6 +395,8 @@ def cmd_setup():
                 need.add((cfg[tier].get('flavour', cfg.get('flavour', 'asan')), cfg.get('binary', 'runner')))
         if cfg.get('run_fn') == 'run_c06':
             need.add(('tsan', 'runner'))
+        if cfg.get('run_fn') == 'run_c10':
+            need.add(('fuzz', 'fuzz'))
     for fl, b in sorted(need):
         if not build(fl, b):
             ok = False
@@ -647,4 +649,147 @@ def replay_c06(pid, cfg, path):
         print('VIOLATION property=%s replay=%s' % (pid, path))
         return 1
     print('REPLAY-PASS property=%s (no ThreadSanitizer report touching the stop flag)' % pid)
+    return 0
+
+
+# ---------------------------------------------------------------------------------------------
+# C10: rapidcheck sessions (generic runner) + libFuzzer campaign over the same tape decoder
+# ---------------------------------------------------------------------------------------------
+def fuzz_env(rundir, stats=None, opts=''):
+    env = dict(os.environ)
+    env.update(ASAN_ENV)
+    env['VERIF_TMPDIR'] = rundir
+    if stats:
+        env['VERIF_FUZZ_STATS'] = stats
+    if opts:
+        env['VERIF_FUZZ_OPTS'] = opts
+    return env
+
+
+def run_c10(pid, cfg, tier, seed, t0):
+    rc = run_rc_property(pid, cfg, tier, seed, t0)
+    ev_path = os.path.join(ROOT, 'evidence', pid + '.json')
+    if rc != 0 or not os.path.exists(ev_path):
+        return rc
+    tc = cfg[tier]
+    jobs = tc.get('fuzz_jobs', 0)
+    if not jobs:
+        return rc
+    exe = build('fuzz', 'fuzz')
+    if not exe:
+        return 2
+    rundir = os.path.join(BUILD, 'tmp', 'fuzz-%s-%d' % (pid, os.getpid()))
+    shutil.rmtree(rundir, ignore_errors=True)
+    os.makedirs(rundir)
+    known = [k for k in load_known() if k.get('property') == pid and k.get('status') == 'known']
+    fopts = ','.join(k['exclude_opt'] for k in known if k.get('exclude_opt'))
+    seeds = sorted(glob.glob(os.path.join(ROOT, 'corpus', 'c10', '*')))
+
+    def job(i):
+        cdir = os.path.join(rundir, 'corpus%d' % i)
+        adir = os.path.join(rundir, 'art%d' % i)
+        os.makedirs(cdir)
+        os.makedirs(adir)
+        for s in seeds:
+            shutil.copy(s, cdir)
+        stats = os.path.join(rundir, 'stats%d.json' % i)
+        lg = os.path.join(rundir, 'fuzz%d.log' % i)
+        s = seed * 1000 + i + 1
+        cmd = [exe, cdir, '-runs=%d' % tc['fuzz_runs'], '-seed=%d' % s, '-max_len=16384', '-len_control=20', '-timeout=600', '-rss_limit_mb=6000',
+               '-artifact_prefix=' + adir + '/', '-print_final_stats=1', '-verbosity=0']
+        with open(lg, 'w') as lf:
+            r = subprocess.run(cmd, stdout=lf, stderr=subprocess.STDOUT, env=fuzz_env(rundir, stats, fopts))
+        st = None
+        try:
+            st = json.load(open(stats))
+        except Exception:
+            pass
+        arts = [a for a in glob.glob(os.path.join(adir, '*')) if os.path.basename(a).startswith(('crash-', 'leak-'))]
+        return i, r.returncode, st, arts, lg
+    with ThreadPoolExecutor(min(jobs, NCPU)) as ex:
+        res = list(ex.map(job, range(jobs)))
+    execs = 0
+    boundary = 0
+    classes = {}
+    viol = []
+    unrepro = []
+    seen = set()
+    for i, code, st, arts, lg in res:
+        if st:
+            execs += st['execs']
+            boundary += st['boundary_sessions']
+            for k, v in st['classes'].items():
+                classes[k] = classes.get(k, 0) + v
+        for a in arts:
+            os.makedirs(os.path.join(ROOT, 'replays'), exist_ok=True)
+            dest = os.path.join(ROOT, 'replays', '%s-%s-seed%d-fuzz%d-%s' % (pid, tier, seed, i, os.path.basename(a)[:24]))
+            shutil.copy(a, dest)
+            fails = 0
+            last = ''
+            for _ in range(3):
+                r = subprocess.run([exe, dest], stdout=subprocess.PIPE, stderr=subprocess.STDOUT, text=True, env=fuzz_env(rundir, None, fopts), timeout=1200)
+                last = r.stdout
+                if r.returncode != 0:
+                    fails += 1
+            sig = crash_signature(last)
+            if fails < 3:
+                unrepro.append(dict(replay=dest, reproduced=fails, signature=sig))
+                continue
+            if sig in seen:
+                continue
+            seen.add(sig)
+            matched = [k for k in known if k.get('signature') and re.search(k['signature'], sig + '\n' + last)]
+            if matched:
+                print('KNOWN-FINDING: property=%s %s' % (pid, matched[0].get('what', '')))
+            else:
+                viol.append((dest, sig, last))
+    ev = json.load(open(ev_path))
+    cov = ev['coverage']
+    cov['libfuzzer_half'] = dict(flavour='fuzz', jobs=jobs, runs_per_job=tc['fuzz_runs'], executions=execs, boundary_sessions=boundary, classes=classes,
+                                 unreproduced=unrepro, rule='coverage-guided mutation of the tape bytes decoded by harness/session.h; only crash-/leak- artifacts that reproduce 3x in a fresh process count')
+    cov['evaluations'] = cov['evaluations'] + execs
+    if viol:
+        ev['violations'] = len(viol)
+        cov['violation_replays'] = [v[0] for v in viol]
+    ev['wall_s'] = round(time.time() - t0, 2)
+    json.dump(ev, open(ev_path, 'w'), indent=1)
+    shutil.rmtree(rundir, ignore_errors=True)
+    if viol:
+        for dest, sig, last in viol:
+            log('--- libFuzzer artifact (%s) ---\n%s' % (sig, last[-3500:]))
+            print('VIOLATION property=%s replay=%s' % (pid, os.path.relpath(dest, ROOT)))
+        return 1
+    if execs < jobs * tc['fuzz_runs'] * 0.5:
+        log('GENERATOR-HEALTH GATE FAILED for C10 libFuzzer half: %d executions of %d planned' % (execs, jobs * tc['fuzz_runs']))
+        return 2
+    print('OK property=%s libfuzzer-half executions=%d boundary_sessions=%d' % (pid, execs, boundary))
+    return 0
+
+
+def replay_c10(pid, cfg, path):
+    head = open(path, 'rb').read(16)
+    if head.startswith(b'# property'):
+        exe = build('asan', 'runner')
+        if not exe:
+            return 2
+        c, o = replay_once(exe, 'C10', path)
+    else:
+        exe = build('fuzz', 'fuzz')
+        if not exe:
+            return 2
+        rundir = os.path.join(BUILD, 'tmp', 'fuzz-replay-%d' % os.getpid())
+        os.makedirs(rundir, exist_ok=True)
+        r = subprocess.run([exe, path], stdout=subprocess.PIPE, stderr=subprocess.STDOUT, text=True, env=fuzz_env(rundir), timeout=1200)
+        shutil.rmtree(rundir, ignore_errors=True)
+        c, o = r.returncode, r.stdout
+    print(o[-4000:])
+    if c != 0:
+        known = [k for k in load_known() if k.get('property') == pid and k.get('status') == 'known']
+        sig = crash_signature(o)
+        for k in known:
+            if k.get('signature') and re.search(k['signature'], sig + '\n' + o):
+                print('KNOWN-FINDING: property=%s %s' % (pid, k.get('what', '')))
+                return 0
+        print('VIOLATION property=%s replay=%s' % (pid, path))
+        return 1
     return 0
